@@ -95,9 +95,15 @@ pub enum Cc {
     HalfUsed,
     /// measured three times over the target
     Overshoot,
+    /// measured at exactly 90% of the target (soft cap exactly at its floor from above)
+    At90,
+    /// measured at 95% of the target (raw headroom 0.05: below the floor)
+    At95,
+    /// measured at 99.9% of the target
+    At999,
 }
 pub const CC_3: [Cc; 3] = [Cc::Zero, Cc::Tiny, Cc::HugeSaturated];
-pub const CC_ALL: [Cc; 5] = [Cc::Zero, Cc::Tiny, Cc::HugeSaturated, Cc::HalfUsed, Cc::Overshoot];
+pub const CC_ALL: [Cc; 8] = [Cc::Zero, Cc::Tiny, Cc::HugeSaturated, Cc::HalfUsed, Cc::Overshoot, Cc::At90, Cc::At95, Cc::At999];
 
 #[derive(Clone, Copy, Debug, PartialEq, Eq, Hash)]
 pub enum Nak {
@@ -365,6 +371,18 @@ pub fn build(idx: usize, sp: &Spec, th: Thresholds, timeout: u64, now: u64, rtts
         Cc::Overshoot => {
             c.cc_target_bps = 200_000_000;
             c.bitrate.current_bitrate_bps = 600_000_000.0;
+        }
+        Cc::At90 => {
+            c.cc_target_bps = 200_000_000;
+            c.bitrate.current_bitrate_bps = 180_000_000.0;
+        }
+        Cc::At95 => {
+            c.cc_target_bps = 200_000_000;
+            c.bitrate.current_bitrate_bps = 190_000_000.0;
+        }
+        Cc::At999 => {
+            c.cc_target_bps = 200_000_000;
+            c.bitrate.current_bitrate_bps = 199_800_000.0;
         }
     }
     // ---- NAK history
